@@ -82,8 +82,21 @@ def correspondence(rep, ctx):
             rep.violation("failing-input", f"diagram of {view.names[root]}: {msg}",
                           {"call": "diagram", "root": view.names[root], "how_to_replay": "./check C16 --replay <this file>"}, True)
 
+    import matplotlib
+    matplotlib.use("Agg")
+    import matplotlib.pyplot as plt
     for i in roots:
-        ok, msg = judge_root(rd, view, i, model[i] if model is not None else None, build, nx)
+        try:
+            ok, msg = judge_root(rd, view, i, model[i] if model is not None else None, build, nx)
+        except Exception as e:  # noqa: BLE001
+            ok, msg = False, f"the graph lacks what the diagram needs ({type(e).__name__}: {e})"
+        if ok and (view.rate[i] == 0 or i % 97 == 0):
+            # every stable root (a one-node diagram) and a sample of the others are actually drawn
+            try:
+                fig, ax = rd.Nuclide(view.names[i]).plot()
+                plt.close(fig)
+            except Exception as e:  # noqa: BLE001
+                ok, msg = False, f"Nuclide.plot() raised {type(e).__name__}: {e}"
         rep.case(("root", view.names[i]), sample={"root": view.names[i], "ok": ok} if i % 300 == 0 else None)
         if not ok:
             fail(i, msg)
@@ -278,6 +291,8 @@ def judge_root(rd, view, i, model_line, build, nx, ds=None):
     if len(set(pos)) != len(pos):
         return False, "two nodes share a position"
     for k, a in nodes.items():
+        if "pos" not in a or "label" not in a:
+            return False, f"node {k} has no {'pos' if 'pos' not in a else 'label'} attribute"
         if a["pos"] != (a["xpos"], -a["generation"]):
             return False, f"pos attribute of {k} inconsistent"
         lab = a["label"].split("\n")
